@@ -258,7 +258,7 @@ func c11Fixed(g *lineGen, r *rng, tier string) {
 		}
 		// a refused big record between good ones
 		g.roundTrip(fn, []string{lit(o), bigRec(fr, 5000, 1) + "+" + lit(b) + "+" + bigRec(fr, 10, 2), lit(p)}, r, 1)
-		for _, n := range []int{65536, 200000} {
+		for _, n := range []int{65536, 200000, 1<<20 - 1, 1 << 20, 1<<20 + 4097} {
 			g.roundTrip(fn, []string{bigRec(fr, n, uint64(n)), lit(o), bigRec(fr, n/3, 3)}, r, 2)
 		}
 	}
